@@ -3,6 +3,7 @@
 package slip
 
 import (
+	"sort"
 	"strconv"
 )
 
@@ -103,7 +104,16 @@ func (obj HashTable) LoadForm() Object {
 		Symbol("let"),
 		List{List{tsym, List{Symbol("make-hash-table")}}},
 	}
-	for k, v := range obj {
+	// Order the keys so the form is the same for the same content.
+	keys := make([]Object, 0, len(obj))
+	for k := range obj {
+		keys = append(keys, k)
+	}
+	sort.Slice(keys, func(i, j int) bool {
+		return loadFormKeyOrder(keys[i]) < loadFormKeyOrder(keys[j])
+	})
+	for _, k := range keys {
+		v := obj[k]
 		switch k.(type) {
 		case Symbol:
 			form = append(form, List{Symbol("setf"), List{Symbol("gethash"), List{quoteSymbol, k}, tsym}, LoadFormValue(v)})
@@ -114,4 +124,13 @@ func (obj HashTable) LoadForm() Object {
 	form = append(form, Symbol("table"))
 
 	return form
+}
+
+// loadFormKeyOrder returns a string to sort the keys of a hash table by, the
+// type of the key followed by the printed key.
+func loadFormKeyOrder(key Object) string {
+	if key == nil {
+		return "nil"
+	}
+	return string(key.Hierarchy()[0]) + " " + ObjectString(key)
 }
